@@ -166,7 +166,7 @@ def run(ctx):
     ok, drv_ok = ctx.prove(MODULE, THEOREMS)
     h = F.build(ctx)
     drv = C.drv_path() if drv_ok else None
-    n = 300 if ctx.tier == "quick" else 3000
+    n = 700 if ctx.tier == "quick" else 3000
     F.explore(ctx, h, drv, cases_main(C.Rng(ctx.seed, "c10/main"), n, ctx.tier), "main", "c10")
     if (ctx.proof_broken or ctx.corr_broken) and not ctx.violations:
         ctx.log("obligation or correspondence broken: widening the search for a failing input")
